@@ -228,9 +228,11 @@ Proof.
 Qed.
 
 Example wf_history_nonvacuous :
-  ∃ m', run_ops (fun _ => None) mfs_init
+  match run_ops (fun _ => None) mfs_init
           [OMkdirP [47; 97]%N; OWriteAll [47; 97; 47; 102]%N [1]%N; OSymlink [47; 108]%N [47; 97]%N;
            OCopy [47; 97]%N [47; 98]%N {| cp_mode := None; cp_cdirs := false; cp_cfiles := false; cp_follow := false |};
-           OChmod [47]%N {| ch_dirs := 448; ch_files := 384; ch_follow := false; ch_recursive := true; ch_sym := [] |}] = Some m'
-        ∧ size (m_ents m') = 6.
-Proof. eexists. split; [vm_compute; reflexivity | vm_compute; reflexivity]. Qed.
+           OChmod [47]%N {| ch_dirs := 448; ch_files := 384; ch_follow := false; ch_recursive := true; ch_sym := [] |}] with
+  | Some m' => size (m_ents m') =? 6
+  | None => false
+  end = true.
+Proof. vm_compute. reflexivity. Qed.
